@@ -1440,7 +1440,18 @@ def run(chk: lib.Check):
                             "DST zones on both hemispheres, a 30-minute DST; os.environ['TZ'] + time.tzset(), restored afterwards) x naive "
                             "datetimes in both seasons, at the switch instants (gap/fold, both folds, +-1us/1ms/1s), years 2..9998, and aware "
                             "datetimes with fixed offsets and with DST zones (coverage.datetime_environments); the live save/reload part "
-                            "assigns and saves under a DST zone and reloads under another environment (coverage.live_environment)" % len(ENVS))
+                            "assigns and saves under a DST zone and reloads under another environment (coverage.live_environment). Alternative "
+                            "Python types of the same value (coverage.counts alt_type_twins:*, live_alt_type_values:*): str / markupsafe.Markup / "
+                            "str subclass for String and HTML attributes (well-formed and ill-formed markup alike), int / bool / IntEnum for "
+                            "Int, float / int / bool / IntEnum for Float, naive / aware / datetime subclass / same instant in another offset for "
+                            "Datetime, member / name / str-subclass name for Enum, SelectorRules / str for PVMT: the XML must not depend on the "
+                            "type (twin element given the canonical type), and the value read back must equal the harness's own reading of "
+                            "the attribute text after the real writer + lxml parser (xml_reader_checks). Specification maps "
+                            "(coverage.specification_maps): obj.specification against a plain dict over histories of set-existing / "
+                            "set-new-language / delete / re-set / absent lookups on specifications starting with 0, 1 and several languages "
+                            "(grouped and interleaved layouts, alias LinkedText, linked text with live links, Markup-typed texts), checked "
+                            "after every step through the mapping in hand, a fresh one and a raw scan of the element; live constraints "
+                            "again after save + reload" % len(ENVS))
     chk.coverage["exhaustive"] = not quick
     chk.assumptions += [
         "CPython float repr round trip, float('*') failing, html.escape: Section hypotheses / stand-ins, sampled each run",
